@@ -655,8 +655,16 @@ func (p *Path) assertObligKnown(cond *Term, label string, known *Term, finding s
 	case "unsat":
 		ob.Status = "discharged"
 	case "inconclusive":
-		ob.Status = "inconclusive"
-		ob.Reason = "no solver decided within the cap"
+		// undecided within the cap: a model search over preferred ("nice") inputs may still
+		// exhibit a real counterexample
+		if p.ex.siteBudget(label + "#undecided") {
+			p.refineAndRecord(ob, neg) // an unsat here is one of the unrestricted query (level 2)
+		} else {
+			ob.Status = "inconclusive"
+		}
+		if ob.Status == "inconclusive" {
+			ob.Reason = "no solver decided within the cap"
+		}
 	case "sat":
 		if p.ex.siteBudget(label) {
 			p.refineAndRecord(ob, neg)
@@ -696,8 +704,24 @@ func solveModelB(ss *SolverSet, base []*Term, names []string, nts []*Term, extra
 	for _, t := range nts {
 		named[t] = true
 	}
+	sampled := false
 	for level := 0; level <= 2; level++ {
 		var pins []*Term
+		if level == 1 && !sampled {
+			// the solvers did not produce a model over the preferred inputs: sample that finite
+			// domain directly and validate each candidate with the native evaluator
+			sampled = true
+			if m, ex, ok := sampleModel(base, nts, extra, 4000); ok {
+				res.Status = "sat"
+				res.By = "sampling over preferred inputs, validated by native evaluation"
+				res.Model = map[string]string{}
+				for i, n := range names {
+					res.Model[n] = m[i]
+				}
+				res.Extra = ex
+				return res
+			}
+		}
 		for round := 0; round < maxRounds; round++ {
 			total++
 			res.Rounds = total
@@ -943,6 +967,62 @@ func solveByComponents(ss *SolverSet, asserts []*Term, allVars []*Term, to int, 
 		out.Model = []string{}
 	}
 	return out
+}
+
+var sampleStrings = []string{"a", "b", "c", "d", "x", "y", "p", "q", "", "\n", "a\nb", "\"", "`", "\\", "a/d", "b/d", "c/d", " ", "1", "a1", "//", "/*", "*/", "\xff", "\x00"}
+var sampleInts = []string{"0", "1", "2", "3", "255", "-1", "65", "128", "1000000", "4607182418800017408"}
+
+// sampleModel searches the finite domain of preferred inputs for an assignment that makes every
+// assertion true under native evaluation (real library functions). It is a counterexample /
+// witness finder only: nothing is ever concluded from its failure.
+func sampleModel(base []*Term, nts []*Term, extra []*Term, tries int) ([]string, []string, bool) {
+	vars, ufs, seen := map[*Term]bool{}, map[*Term]bool{}, map[*Term]bool{}
+	for _, a := range base {
+		a.collect(vars, ufs, seen)
+	}
+	for _, a := range extra {
+		a.collect(vars, ufs, seen)
+	}
+	named := map[*Term]bool{}
+	for _, t := range nts {
+		named[t] = true
+	}
+	for v := range vars {
+		if !named[v] {
+			return nil, nil, false // witnesses introduced by the encoding cannot be sampled
+		}
+	}
+	h := uint64(1469598103934665603)
+	for _, t := range nts {
+		h = (h ^ uint64(t.id)) * 1099511628211
+	}
+	next := func(n int) int {
+		h = h*6364136223846793005 + 1442695040888963407
+		return int((h >> 33) % uint64(n))
+	}
+	for try := 0; try < tries; try++ {
+		env := newEvalEnv()
+		vals := make([]string, len(nts))
+		for i, t := range nts {
+			switch t.Sort {
+			case SStr:
+				vals[i] = "s:" + sampleStrings[next(len(sampleStrings))]
+			case SBool:
+				vals[i] = fmtBool(next(2) == 1)
+			default:
+				vals[i] = sampleInts[next(len(sampleInts))]
+			}
+			env.vars[t] = vals[i]
+		}
+		all, ok, _ := env.evalAll(base)
+		if ok && all {
+			ex, ok2 := env.evalStrings(extra)
+			if ok2 {
+				return vals, ex, true
+			}
+		}
+	}
+	return nil, nil, false
 }
 
 func (p *Path) refineAndRecord(ob *Oblig, neg *Term) {
